@@ -28,7 +28,7 @@ func init() { sim.Register(c33{}) }
 func (c33) ID() string { return "C33" }
 
 var (
-	c33Pkgs  = []string{"a", "a.b", "a.b.c", "b", "a.M"}
+	c33Pkgs  = []string{"a", "a.b", "a.b.c", "b", "a.M", ""}
 	c33Paths = []string{"p1.proto", "p2.proto", "p3.proto", "q/p1.proto", "p4.proto"}
 	c33Pool  = []string{"M", "N", "E", "V", "S", "x", "b", "c", "W"}
 )
